@@ -38,6 +38,14 @@ Proof.
     destruct o2 as [b|b]; [|exists (Thr b), h2; intros; rewrite E1; simpl; rewrite E2; reflexivity].
     destruct (respond h2 (EvCall a [b])) eqn:R;
     [exists (Ret v)|exists (Thr v)]; exists (h2 ++ [EvCall a [b]]); intros; rewrite E1; simpl; rewrite E2; simpl; unfold fire; rewrite R; reflexivity.
+  - (* method call without argument *)
+    destruct (IHe Hs h t) as (o1 & h1 & E1).
+    destruct o1 as [vo|vo]; [|exists (Thr vo), h1; intros; rewrite E1; reflexivity].
+    destruct (respond h1 (EvGet vo m)) as [vf|vf] eqn:RG.
+    2:{ exists (Thr vf), (h1 ++ [EvGet vo m]). intros. rewrite E1. simpl. unfold fire. rewrite RG. reflexivity. }
+    destruct (respond (h1 ++ [EvGet vo m]) (EvCallT vf vo [])) eqn:R;
+      [exists (Ret v)|exists (Thr v)]; exists ((h1 ++ [EvGet vo m]) ++ [EvCallT vf vo []]); intros; rewrite E1; simpl;
+      unfold fire; rewrite RG; simpl; rewrite R; reflexivity.
   - (* method call *)
     destruct Hs as [Hl Hr].
     destruct (IHe1 Hl h t) as (o1 & h1 & E1).
@@ -107,6 +115,16 @@ Lemma eval_mcall1 o m a (s : st) :
   eval (MCall1 o m a) s =
   bind (eval o s) (fun vo s1 => bind (fire respond (EvGet vo m) s1) (fun vf s2 =>
   bind (eval a s2) (fun va s3 => fire respond (EvCallT vf vo [va]) s3))).
+Proof. reflexivity. Qed.
+
+Lemma eval_mcall0 o m (s : st) :
+  eval (MCall0 o m) s =
+  bind (eval o s) (fun vo s1 => bind (fire respond (EvGet vo m) s1) (fun vf s2 => fire respond (EvCallT vf vo []) s2)).
+Proof. reflexivity. Qed.
+
+Lemma eval_callt0 f this (s : st) :
+  eval (CallT0 f this) s =
+  bind (eval f s) (fun vf s1 => bind (eval this s1) (fun vt s2 => fire respond (EvCallT vf vt []) s2)).
 Proof. reflexivity. Qed.
 
 Lemma eval_callt1 f this a (s : st) :
@@ -208,6 +226,11 @@ Proof.
   - (* Par *)
     simpl in Hk. destruct (rw e c) as [x' c1]. simpl in Hk.
     destruct Hk as [Hk | (a & b & Hk)]; discriminate.
+  - (* method call without argument *)
+    simpl in Hk. destruct (rw e c) as [o' c1].
+    destruct (instr m && (negb (is_lit o') || lit_ok m)).
+    + unfold rw_mcall0 in Hk. destruct (is_lit o'); simpl in Hk; destruct Hk as [Hk | (a & b & Hk)]; discriminate.
+    + simpl in Hk. destruct Hk as [Hk | (a & b & Hk)]; discriminate.
   - (* method call: the result is a call or an injected sequence *)
     simpl in Hk. destruct (rw e1 c) as [o' c1]. destruct (rw e2 c1) as [a' c2].
     destruct (instr m && (negb (is_lit o') || lit_ok m)).
@@ -374,6 +397,52 @@ Proof.
     eexists; (split; [reflexivity|frame_tac]).
   - (* Par : transparent *)
     pose proof (IHe Hs c h t) as I. simpl. destruct (rw e c) as [x' c1]. exact I.
+  - (* method call without argument *)
+    pose proof (IHe Hs c) as I1. pose proof (rw_inplace_src e c Hs) as P1.
+    simpl. destruct (rw e c) as [l' c1] eqn:Rl. simpl in I1, P1.
+    assert (Hc1 : c <= c1) by (destruct (I1 h t); auto).
+    destruct (src_tenv e Hs h t) as (o1 & h1 & E1).
+    destruct (instr m && (negb (is_lit l') || lit_ok m)) eqn:INS.
+    + unfold rw_mcall0. destruct (is_lit l') eqn:LL.
+      * assert (TL : is_triv l' = true) by (destruct l'; simpl in *; congruence).
+        destruct (P1 (or_introl TL)) as [Q1 _]. inversion Q1; subst l' c1.
+        destruct e as [v0| | | | | | | | | | | | | |]; try discriminate LL.
+        assert (o1 = Ret v0 /\ h1 = h) as [-> ->] by (specialize (E1 t); simpl in E1; inversion E1; auto).
+        cbn [app fst snd wrap]. split; [lia|]. intros o h' E.
+        specialize (E t). rewrite E1 in E. cbn [bind] in E.
+        rewrite eval_hoist1, eval_get, eval_lit. cbn [bind].
+        destruct (respond h (EvGet v0 m)) as [vf|vf] eqn:RG.
+        2:{ rewrite (fire_thr t RG) in E. rewrite (fire_thr t RG). cbn [bind] in *. inversion E; subst o h'. eexists; split; [reflexivity|frame_tac]. }
+        rewrite (fire_ret t RG) in E. rewrite (fire_ret t RG). cbn [bind fst snd] in *.
+        rewrite hook_pure by (repeat constructor; try apply pure_tmp; apply pure_lit).
+        rewrite eval_callt0. step_eval. rewrite upd_same.
+        destruct (respond (h ++ [EvGet v0 m]) (EvCallT vf v0 [])) eqn:RC;
+          [rewrite (fire_ret t RC) in E; rewrite (fire_ret _ RC) | rewrite (fire_thr t RC) in E; rewrite (fire_thr _ RC)];
+          inversion E; subst o h'; eexists; (split; [reflexivity|frame_tac]).
+      * cbn [app fst snd wrap]. split; [lia|]. intros o h' E.
+        destruct (I1 h t) as (_ & K1). destruct (K1 o1 h1 E1) as (t1 & El & F1).
+        specialize (E t). rewrite E1 in E.
+        rewrite eval_hoist2, El.
+        destruct o1 as [vo|vo]; cbn [bind fst snd] in *; [|inversion E; subst o h'; eexists; split; [reflexivity|frame_tac]].
+        rewrite eval_get, eval_tmp. cbn [bind fst snd]. rewrite upd_same.
+        destruct (respond h1 (EvGet vo m)) as [vf|vf] eqn:RG.
+        2:{ rewrite (fire_thr t RG) in E. rewrite (fire_thr _ RG). cbn [bind] in *. inversion E; subst o h'. eexists; split; [reflexivity|frame_tac]. }
+        rewrite (fire_ret t RG) in E. rewrite (fire_ret _ RG). cbn [bind fst snd] in *.
+        rewrite hook_pure by (repeat constructor; apply pure_tmp).
+        rewrite eval_callt0. step_eval. rewrite upd_same. rewrite upd_other by lia. rewrite upd_same.
+        destruct (respond (h1 ++ [EvGet vo m]) (EvCallT vf vo [])) eqn:RC;
+          [rewrite (fire_ret t RC) in E; rewrite (fire_ret _ RC) | rewrite (fire_thr t RC) in E; rewrite (fire_thr _ RC)];
+          inversion E; subst o h'; eexists; (split; [reflexivity|frame_tac]).
+    + cbn [fst snd]. split; [lia|]. intros o h' E.
+      destruct (I1 h t) as (_ & K1). destruct (K1 o1 h1 E1) as (t1 & El & F1).
+      rewrite eval_mcall0, El. specialize (E t). rewrite E1 in E.
+      destruct o1 as [vo|vo]; cbn [bind] in *; [|inversion E; subst o h'; eexists; split; [reflexivity|frame_tac]].
+      destruct (respond h1 (EvGet vo m)) as [vf|vf] eqn:RG.
+      2:{ rewrite (fire_thr t RG) in E. rewrite (fire_thr t1 RG). cbn [bind] in *. inversion E; subst o h'. eexists; split; [reflexivity|frame_tac]. }
+      rewrite (fire_ret t RG) in E. rewrite (fire_ret t1 RG). cbn [bind] in *.
+      destruct (respond (h1 ++ [EvGet vo m]) (EvCallT vf vo [])) eqn:RC;
+        [rewrite (fire_ret t RC) in E; rewrite (fire_ret t1 RC) | rewrite (fire_thr t RC) in E; rewrite (fire_thr t1 RC)];
+        inversion E; subst o h'; eexists; (split; [reflexivity|frame_tac]).
   - (* method call *)
     destruct Hs as [Hl Hr].
     pose proof (IHe1 Hl c) as I1. pose proof (rw_inplace_src e1 c Hl) as P1.
@@ -392,7 +461,7 @@ Proof.
       * (* literal receiver: it stays *)
         assert (TL : is_triv l' = true) by (destruct l'; simpl in *; congruence).
         destruct (P1 (or_introl TL)) as [Q1 _]. inversion Q1; subst l' c1.
-        destruct e1 as [v0| | | | | | | | | | | |]; try discriminate LL.
+        destruct e1 as [v0| | | | | | | | | | | | | |]; try discriminate LL.
         assert (o1 = Ret v0 /\ h1 = h) as [-> ->] by (specialize (E1 t); simpl in E1; inversion E1; auto).
         destruct DA as [HA | NA].
         -- (* argument hoisted *)
